@@ -1,6 +1,6 @@
 (** Property C10 — PickAPerm returns exactly the best input rankings.
     Scores are [kemeny_spec] (what the Kemeny routine computes, property C01). *)
-From Corankco Require Import Prelude Scheme SchemeProof Rank KemenySpec Borda BordaProof PickAPerm PickAPermProof.
+From Corankco Require Import Prelude Scheme SchemeProof Rank KemenySpec Borda BordaProof PickAPerm PickAPermProof PickAPermExact.
 Local Open Scope Z_scope.
 
 (** every returned ranking is one of the inputs (unified when incomplete) and has the minimum score
@@ -29,3 +29,24 @@ Theorem C10_unify_spec : forall U r,
   (forall x, ranked (unify U r) x <-> ranked r x \/ (In x U /\ ~ ranked r x)).
 Proof. exact unify_spec. Qed.
 Print Assumptions C10_unify_spec.
+
+(** the exact answer, as a list.  All requested: the inputs whose score is the minimum [m] ([C10_spec] says [m] is the minimum),
+    in input order, each as many times as it occurs among the inputs - nothing else, nothing dropped, nothing reordered. *)
+Theorem C10_all_exact : forall s D,
+  D <> [] -> (is_complete D = true \/ is_equivalent_to s unifying = true) ->
+  exists m, pickaperm false s D = Ok (Some m, filter (fun r => kemeny_spec s D r =? m) (pick_inputs D)).
+Proof. exact pickaperm_all_exact. Qed.
+Print Assumptions C10_all_exact.
+
+(** one requested: the FIRST input of minimal score, alone, with its own score reported: every input before it scores strictly
+    more, every input after it at least as much *)
+Theorem C10_one_exact : forall s D,
+  D <> [] -> (is_complete D = true \/ is_equivalent_to s unifying = true) ->
+  exists a P Q, pickaperm true s D = Ok (Some (kemeny_spec s D a), [a]) /\ pick_inputs D = P ++ a :: Q /\
+    (forall x, In x P -> kemeny_spec s D a < kemeny_spec s D x) /\
+    (forall x, In x Q -> kemeny_spec s D a <= kemeny_spec s D x).
+Proof.
+  intros s D HD H. destruct (pickaperm_one_exact s D HD H) as (a & E & (P & Q & EQ & HP & HQ)).
+  exists a, P, Q. repeat split; assumption.
+Qed.
+Print Assumptions C10_one_exact.
